@@ -586,6 +586,40 @@ class Rewriter:
             inner = split_args(mm.group(1))
             return 'cb_drop_slice(hs, ds, %s, %s)' % (inner[0], inner[1])
         b = self.map_calls(b, r'(?<![\w.:])ptr::drop_in_place', _ds, 'R22:drop-slice')
+        # R16: the SetLenOnDrop scope guard becomes a value; its Drop (the write-back of the length) is made explicit; user code
+        # that runs while the guard is alive (an element destructor) receives it: an unwind would store guard.local_len
+        gm = re.search(r'let mut (\w+) = SetLenOnDrop::new\(\s*&mut self\.len\s*\)', b)
+        if gm:
+            b = self.map_calls(b, r'(?<![\w.:])ptr::drop_in_place', lambda m_, a: 'cb_drop_elem_guarded(hs, ds, %s, &%s)' % (a[0], gm.group(1)), 'R22:drop-elem')
+        else:
+            b = self.map_calls(b, r'(?<![\w.:])ptr::drop_in_place', lambda m_, a: 'cb_drop_elem(hs, ds, %s)' % a[0], 'R22:drop-elem')
+        if gm:
+            gname = gm.group(1)
+            b = self.sub('R16:guard-new', r'SetLenOnDrop::new\(\s*&mut self\.len\s*\)', 'SetLenOnDrop::new(self.len)', b)
+            b = self.sub('R16:for-underscore', r'\bfor _ in\b', 'for i__ in', b)
+            mm = mask(b)
+            k = mm.index('let mut %s = SetLenOnDrop::new' % gname)
+            depth, j = 0, k
+            while j >= 0:
+                if mm[j] == '}':
+                    depth += 1
+                elif mm[j] == '{':
+                    if depth == 0:
+                        break
+                    depth -= 1
+                j -= 1
+            cpos = match_close(mm, j)
+            b = b[:cpos] + '    self.len = %s.local_len; /* R16: Drop of the SetLenOnDrop guard */\n        ' % gname + b[cpos:]
+            self.fired('R16:guard-drop-explicit')
+        # R23: `for PAT in ITER { BODY }` over a by-value iterator is by definition `loop { match ITER.next() { Some(PAT) => BODY, None => break } }`
+        fm = re.search(r'\bfor (\w+) in (iter)\s*\{', mask(b))
+        if fm:
+            o = fm.end() - 1
+            cpos = match_close(mask(b), o)
+            body = b[o + 1:cpos]
+            b = (b[:fm.start()] + 'let mut %s__it = %s;\n        loop {\n            match %s__it.next() {\n                Some(%s) => {%s}\n                None => { break; }\n            }\n        }'
+                 % (fm.group(2), fm.group(2), fm.group(2), fm.group(1), body) + b[cpos + 1:])
+            self.fired('R23:for-over-iterator')
         # raw pointer primitives
         b = self.map_calls(b, r'(?<![\w.:])ptr::write', lambda m_, a: 'buf_write(hs, %s)' % ', '.join(a), 'R22:ptr-write')
         b = self.map_calls(b, r'(?<![\w.:])ptr::read', lambda m_, a: 'buf_read(hs, %s)' % ', '.join(a), 'R22:ptr-read')
@@ -609,11 +643,13 @@ class Rewriter:
         # `self.for_each(drop)` is by definition: call next() until None, dropping every item
         extra = ', Ghost(*source_vec)' if c.get('drain_drop') else ''
         b = self.sub('R19:for_each-drop', r'\bself\.for_each\(drop\);',
-                     'loop { match self.next(hs%s) { Some(x__) => { elem_drop(ds, x__); } None => { break; } } }' % extra, b)
+                     'loop {\n            match self.next(hs%s) {\n                Some(x__) => {\n                    elem_drop(ds, x__);\n                }\n                None => { break; }\n            }\n        }' % extra, b)
         # R12: thread the ghost heap through the calls that take it
         for pat in [r'\bself\.reserve', r'\bself\.buf\.reserve', r'\bself\.buf\.cap', r'\bself\.capacity', r'\bself\.append_elements',
-                    r'\bself\.extend_from_slice_copy_unchecked', r'\b\w+\.set_len', r'\bVecM::with_capacity_in', r'\bRawVecM::with_capacity_in']:
+                    r'\bself\.extend_from_slice_copy_unchecked', r'\b\w+\.set_len', r'\bself\.push', r'\bself\.extend(?!_)', r'\bVecM::with_capacity_in', r'\bRawVecM::with_capacity_in']:
             b = self.map_calls(b, pat, lambda m_, a: None if (a and a[0] == 'hs') else '%s(%s)' % (m_.group(0).rstrip('(').rstrip(), ', '.join(['hs'] + a)), 'R12:thread-heap')
+        b = self.map_calls(b, r'\bself\.truncate', lambda m_, a: None if (a and a[0] == 'hs') else 'self.truncate(hs, ds, %s)' % ', '.join(a), 'R12:thread-heap')
+        b = self.sub('R22:slice-cloned-iter', r'\bother\.iter\(\)\.cloned\(\)', 'slice_cloned_iter(hs, other)', b)
         return b
 
     # R20: RawVec growth -- the arena seen through its Alloc interface as a ghost "buffer owned" state -----------------
